@@ -60,7 +60,58 @@ def main(argv=None):
         e = AnalysisError('census', 'only %d obligations, floor is %d' % (len(ctx.obligations), floors))
         e.rule = '*'
         ctx.errors.append(e)
+    if a.tier == 'thorough' and not only and not a.rule and os.path.realpath(a.repo) == '/repo':
+        ctx.extra['sensitivity'] = sensitivity(pid)
     return ctx.finish(mod.EXPLANATION, mod.ASSUMPTIONS, mod.TECHNIQUE)
+
+
+def sensitivity(pid):
+    """thorough tier: run the self-test edits of this property (each on its own scratch copy of the source) and the
+    seeded changes kept under /verif/seeded; recorded in the evidence, never changes the exit code"""
+    import re
+    import shutil
+    import subprocess
+    import tempfile
+    from concurrent.futures import ThreadPoolExecutor
+    sys.path.insert(0, os.path.join(VERIF, 'selftest'))
+    try:
+        from mutants import EDITS
+        import run as selfrun
+    except Exception as e:       # the self-test material is optional for the verdict
+        return {'error': 'self-test material not loadable: %s' % e}
+    edits = [e for e in EDITS if e['property'] == pid]
+    with ThreadPoolExecutor(min(16, max(1, len(edits)))) as ex:
+        res = list(ex.map(selfrun.run_one, edits))
+    out = {'mutants_killed': sum(1 for r in res if r['status'] == 'KILLED'),
+           'mutants_total': sum(1 for r in res if r['kind'] == 'mutant'),
+           'twins_silent': sum(1 for r in res if r['status'] == 'SILENT'),
+           'twins_total': sum(1 for r in res if r['kind'] == 'twin'),
+           'not_as_expected': [{'id': r['id'], 'status': r['status'], 'rules': r.get('rules', [])} for r in res
+                               if r['status'] not in ('KILLED', 'SILENT')],
+           'edits': [{'id': r['id'], 'kind': r['kind'], 'status': r['status'], 'rules': r.get('rules', [])} for r in res]}
+    seeded = sorted(d for d in os.listdir(os.path.join(VERIF, 'seeded')) if d.startswith(pid + '-'))
+
+    def one(sid):
+        t = tempfile.mkdtemp(prefix='tlint-thorough.')
+        try:
+            shutil.copytree('/repo/tracklib', t + '/tracklib')
+            shutil.copytree('/repo/resources', t + '/resources')
+            p = subprocess.run(['patch', '-s', '-p1', '-i', os.path.join(VERIF, 'seeded', sid, 'patch.diff')], cwd=t,
+                               capture_output=True, text=True)
+            if p.returncode != 0:
+                return {'id': sid, 'status': 'patch does not apply'}
+            env = dict(os.environ, TLINT_EVIDENCE_DIR=t + '/ev')
+            r = subprocess.run([os.path.join(VERIF, 'check'), pid, '--repo', t], capture_output=True, text=True, env=env)
+            rules = sorted(set(re.findall(r'^\S+: (C\d\d\.\w+):', r.stdout, re.M)))
+            return {'id': sid, 'exit': r.returncode, 'rules': rules}
+        finally:
+            shutil.rmtree(t, ignore_errors=True)
+    if seeded:
+        with ThreadPoolExecutor(min(16, len(seeded))) as ex:
+            out['seeded'] = list(ex.map(one, seeded))
+    print('  thorough: self-test %d/%d mutants reported, %d/%d twins silent; %d seeded changes re-run'
+          % (out['mutants_killed'], out['mutants_total'], out['twins_silent'], out['twins_total'], len(seeded)))
+    return out
 
 
 if __name__ == '__main__':
